@@ -221,10 +221,11 @@ def check_cases(chk, cases, replay=False):
             return
     rmx = [c for c in cases if c.get("kind") == "relmix"]
     if rmx:
-        relmix_check(chk, rmx)
         cases = [c for c in cases if c.get("kind") != "relmix"]
-        if not cases:
-            return
+        if cases:
+            check_cases(chk, cases, replay)
+        relmix_check(chk, rmx)          # after the operator cells, so that their (more specific) reports come first
+        return
     lines = []
     for c in cases:
         if "policy" in c:
